@@ -230,6 +230,15 @@ func hostileInputs(k *h.Keys, r *h.Rng, n int, thorough bool) []hostileInput {
 					add(fmt.Sprintf("%s: descriptor %d %s := %#x", names[bi], di, f.n, v), m)
 				}
 			}
+			// offset and size together: both negative, both huge
+			for _, ov := range []uint64{^uint64(0), 1 << 63, 1<<63 + 62, 1<<63 - 1} {
+				for _, sv := range []uint64{^uint64(0), 1 << 63, 1<<63 + 5, 1<<63 - 1} {
+					m := bytes.Clone(base)
+					putLE(m, o+17, 8, ov)
+					putLE(m, o+25, 8, sv)
+					add(fmt.Sprintf("%s: descriptor %d offset := %#x, size := %#x", names[bi], di, ov, sv), m)
+				}
+			}
 			// byte-string fields: no terminating NUL, all ones, all zero
 			for _, bf := range []struct {
 				n        string
